@@ -294,6 +294,7 @@ OfferOK(gs, ons) ==
     /\ Cardinality({i \in 1..Len(ons) : ons[i] > 0}) <= 1
 
 ShapeSet == {TheShapes[i] : i \in 1..Len(TheShapes)}
+PoolSeqSet == {ThePoolSeqs[i] : i \in 1..Len(ThePoolSeqs)}
 
 \* the pools of an instance with tasks ts: in a preemptive bound the running tasks
 \* are the only occupants
@@ -310,7 +311,8 @@ InBound(I) ==
     /\ Len(I.tasks) \in 1..MaxTasks
     /\ \A t \in 1..Len(I.tasks) : I.tasks[t] \in ShapeSet
     /\ OfferOK([t \in 1..Len(I.tasks) |-> I.tasks[t].graph], [t \in 1..Len(I.tasks) |-> I.tasks[t].ran.on])
-    /\ \E p \in 1..Len(ThePoolSeqs) : I.pools = PoolsFor(I.tasks, p)
+    /\ IF Preemptive THEN \E p \in 1..Len(ThePoolSeqs) : I.pools = PoolsFor(I.tasks, p)
+                     ELSE I.pools \in PoolSeqSet
 
 InstanceOf(s, p) ==
     LET ts == Tup([t \in 1..Len(s) |-> TheShapes[s[t]]])
@@ -322,7 +324,7 @@ BoundOK ==
     /\ GraphOf = Tup([i \in 1..NShapes |-> TheShapes[i].graph])
     /\ OnOf = Tup([i \in 1..NShapes |-> TheShapes[i].ran.on])
     /\ Cardinality(ShapeSet) = NShapes
-    /\ Cardinality({ThePoolSeqs[i] : i \in 1..Len(ThePoolSeqs)}) = NPools
+    /\ Cardinality(PoolSeqSet) = NPools
     /\ FirstIx \subseteq 1..NShapes
 
 -----------------------------------------------------------------------------
